@@ -21,6 +21,7 @@ type ctx struct {
 	// only: single-document mode (used by the shrinker): checks that support it judge just this document
 	// with their direct oracles and skip generation and the model transcript
 	only    []byte
+	corpus  []corpusDoc
 	onlyEnv map[string]string
 }
 
@@ -35,6 +36,7 @@ func main() {
 	driver := flag.String("driver", "/verif/lean/.lake/build/bin/driver", "Lean driver executable")
 	out := flag.String("out", "", "result file")
 	knownPath := flag.String("known", "/verif/known_findings.json", "known findings file")
+	corpusDir := flag.String("corpus", "/verif/corpus", "regression corpus directory")
 	flag.Parse()
 	seed, err := strconv.ParseUint(*seedS, 10, 64)
 	if err != nil {
@@ -47,6 +49,7 @@ func main() {
 	}
 	c := &ctx{tier: *tier, seed: seed, driver: *driver, res: core.NewResult(*prop, *tier, seed), rng: core.NewRand(seed)}
 	c.known = loadKnown(*knownPath, *prop)
+	c.corpus = loadCorpus(*corpusDir, *prop)
 	if err := f(c); err != nil {
 		c.res.Notes = append(c.res.Notes, "harness error: "+err.Error())
 		c.res.Write(*out)
